@@ -229,7 +229,7 @@ func runConc(t *testing.T, prop string, race bool) {
 				prog = &MEProg{Kind: "me", RUs: rapid.SampledFrom([]int{0, 50, 1000}).Draw(rt, "r"), DUs: rapid.SampledFrom([]int{0, 50, 1000}).Draw(rt, "d"), G: rapid.IntRange(2, 6).Draw(rt, "g"), Iter: rapid.IntRange(20, 200).Draw(rt, "iter"), Seed: rapid.Uint64().Draw(rt, "seed"), Pert: 2, Shared: rapid.IntRange(0, 2).Draw(rt, "shared") == 0}
 			case 1:
 				kind = "gme"
-				prog = &GMEProg{Kind: "gme", G: rapid.IntRange(2, 5).Draw(rt, "g"), Iter: rapid.IntRange(5, 30).Draw(rt, "iter"), Updates: rapid.IntRange(0, 6).Draw(rt, "upd"), Outages: rapid.IntRange(0, 4).Draw(rt, "out"), Updaters: rapid.IntRange(1, 2).Draw(rt, "updaters"), Seed: rapid.Uint64().Draw(rt, "seed"), Pert: rapid.SampledFrom([]int{2, 2, 3}).Draw(rt, "gmepert"),
+				prog = &GMEProg{Kind: "gme", G: rapid.IntRange(2, 5).Draw(rt, "g"), Iter: rapid.IntRange(5, 30).Draw(rt, "iter"), Updates: rapid.IntRange(0, 6).Draw(rt, "upd"), Outages: rapid.IntRange(0, 4).Draw(rt, "out"), Updaters: rapid.IntRange(1, 2).Draw(rt, "updaters"), ExtCloseAll: rapid.IntRange(0, 2).Draw(rt, "extcloseall") == 0, Seed: rapid.Uint64().Draw(rt, "seed"), Pert: rapid.SampledFrom([]int{2, 2, 3}).Draw(rt, "gmepert"),
 					CloseEarly: (race || prop == "C16") && rapid.IntRange(0, 2).Draw(rt, "closeEarly") == 0}
 			}
 		}
